@@ -103,6 +103,7 @@ def _worker(wid, spaces, counter, nblocks_total, order, deadline, beacon_path, c
             case = None
             k = 0
             last_b = time.time()
+            slow_cases = False
             for case in sp.cases(blk):
                 R.case = case
                 R.n += 1
@@ -111,9 +112,10 @@ def _worker(wid, spaces, counter, nblocks_total, order, deadline, beacon_path, c
                     b = crepr(case).encode()[:BEACON_SZ - 40]
                     struct.pack_into("<qqqq", bm, off, si, bi, k, len(b))
                     bm[off + 32:off + 32 + len(b)] = b
-                elif k & 15 == 0:
+                elif k & 3 == 0 or slow_cases:
                     now = time.time()
-                    if now - last_b > 0.5:       # progress beacon: a stall then means "16 cases did not finish", not "a block did not finish"
+                    slow_cases = now - last_b > 0.05        # cases of this block are slow: look at the clock after every one of them
+                    if now - last_b > 0.5:       # progress beacon: a stall then means "a few cases did not finish", not "a block did not finish"
                         last_b = now
                         struct.pack_into("<q", bm, off + 16, k)
                 try:
